@@ -579,8 +579,13 @@ def _resolve(x, jsonschema):
 def make_callable(athlib, call):
     import jsonschema
     obj = athlib
-    for part in call['f'].split('.'):
-        obj = getattr(obj, part)
+    try:
+        for part in call['f'].split('.'):
+            obj = getattr(obj, part)
+    except AttributeError as e:
+        # a tree without this public name: the same outcome in the oracle runs and under every schedule
+        err = ('exc', 'AttributeError', str(e)[:160])
+        return lambda: err
     a = [_resolve(x, jsonschema) for x in call['a']]
     k = {kk: _resolve(v, jsonschema) for kk, v in call['k'].items()}
     fn = obj
